@@ -11,11 +11,21 @@ RULE = ("per case: rule set spot|futures, 1-3 instruments on one connection; per
         "the instruments of such a case keep the full depth): the snapshot is the venue's book at its id cut to the best n levels per side; in these cases harness and "
         "model also print, per instrument with a declared depth, one `lv<k>:<side>:<price> <amount>` line per price of the venue, and the oracle states those lines "
         "for exactly the prices the snapshot covers, an admitted update wrote or the venue changed since the snapshot id (and the whole-book line only when the limit "
-        "cuts nothing). Every snapshot and message is JSON parsed by the real "
+        "cuts nothing). On top of these, N/8 cases (ids d…, input-domain audit) from a third independent random stream draw the classes the two families above never "
+        "produce: every id of the case shifted by one of {0, 2^32-20, 22 611 425 143, 10^12, 2^53-20, 2^63-20, 2^64-401, 2^64-1 000 001} (each in turn, so the stream of "
+        "a case crosses the boundary); 50 %: prices on grids of 1e-8 ticks / at 1e12 / with 12 significant digits / across 1 and amounts from {1e-8, 123456789.12345678, 1e12, "
+        "1e12+1e-8, 0.1, 0.30000000, 2.5}; 50 %: a quarter of the levels of snapshots and messages spell their price with another scale (100 / 100.0 / 100.00); 40 %: "
+        "non-genuine messages in 40 % instead of 12 % of the cases plus 1-4 non-genuine messages that CONTINUE a delivered one (pu = its u, u = its u..u+2, U among 0, "
+        "its u, its u+1, u+1, u+3, its U - i.e. also U > u, which the futures rule admits) whose sides state up to 4 random prices, repeats with different amounts "
+        "included; 40 %: 2-4 connections with `reconnect` also before the first connection, after a failed `start` (25 % of the connections), right after `start`, after "
+        "a `msg` (the `end` observation left out, 30 %) and twice in a row; 25 % of these cases have depth-limited snapshots. The corpus (corpus/C06/domain_edges.ops) "
+        "holds hand-written inputs of the same classes incl. ids equal to 2^64-1, snapshot id 0 with the first message exactly at the boundary for both rule sets, a "
+        "connection without instruments, and `msg` / `end` while no connection is up (rejected as `bad-op` by harness, model and spec alike). Every snapshot and message is JSON parsed by the real "
         "serde types, the transformer is built by the real ExchangeTransformer::init, every message goes through the real Transformer::transform (and a "
         "stand-alone real *Sequencer::validate_sequence whose public fields are printed), delivered events through the real OrderBook::update, and the whole "
         "output list through the real with_termination_on_error(|e| e.is_terminal()). thorough additionally enumerates, for both rule sets, every sequence of "
-        "<= 3 messages over 18 (U,u,pu) triples around a snapshot at id 5 (12 348 cases). A case is distinct by the SHA-1 of its op lines and non-trivial "
+        "<= 3 messages over 18 (U,u,pu) triples around a snapshot at id 5 (12 348 cases) and every sequence of <= 2 such messages around a snapshot at id 2^32-1 "
+        "(684 cases, ids y…). A case is distinct by the SHA-1 of its op lines and non-trivial "
         "when the implementation's observation block changes at least once")
 ASSUMPTIONS = [
     "the venue's contract (trusted, DESIGN C06): delivered depth messages are genuine - each states, for some id range (lo,hi], the amount at hi of every price "
@@ -36,7 +46,11 @@ ASSUMPTIONS = [
     "published first-message rule U <= s <= u itself - this is the venue's rule, not a deviation of the code",
     "subscription ids on one connection map to pairwise distinct instrument keys (connection-level theorems)",
     "snapshot sides strictly ordered (book_is_truth) and free of zero amounts (book_is_truth_exact): what OrderBook::new yields for a venue snapshot (C05 precondition)",
-    "exact rationals for Decimal; u64 ids as unbounded naturals (last_update_id + 1 overflow at 2^64 not modelled); time_exchange/time_engine/time_received not modelled",
+    "exact rationals for Decimal; u64 ids as unbounded naturals (last_update_id + 1 overflow at 2^64 not modelled; ids up to 2^64-1 are generated / in the corpus: inside "
+    "validate_sequence the sum is only evaluated after the stale test `u <= last` failed, i.e. with last < u <= 2^64-1, so it cannot overflow there - only a direct call "
+    "of the public validate_first_update / validate_next_update on a sequencer holding 2^64-1 could); time_exchange/time_engine/time_received not modelled",
+    "`msg` / `end` are ops of a connection that is up: before the first successful `start`, after a failed `start` of a new connection and after `reconnect` they are "
+    "rejected (`bad-op`) by harness, model driver and spec driver alike (generated cases never contain them; a minimiser that deletes ops can produce them)",
     "Transformer::transform's `input.id() == None => vec![]` arm is unreachable for these message types (id() is always Some) and is not modelled; the FnvHashMap "
     "instrument map is an association list (first match = only match for distinct subscription ids)",
     "with_termination_on_error is modelled by its list semantics (map_while); that the outer reconnecting stream then re-initialises and emits one Reconnecting "
@@ -99,7 +113,7 @@ LEVEL_TEXT = ("Proof. Lean theorems over the sequencing model composed with C05'
               "in venue size, ids, delivery length, number of instruments. The model is tied to the code on every run through the real serde types, init, transform, "
               "validate_sequence, OrderBook::update and with_termination_on_error; the oracle recomputes the book from the simulated venue, never from the messages.")
 LEVEL_NOTE = ("Trusted: Lean kernel; axioms propext/Classical.choice/Quot.sound only; the hand-written model (one definition per Rust function, parameterised by the rule "
-              "set; hash map as association list; map_while as list function), tied by sampled correspondence (400 quick / 20k random + 12.3k small-scope exhaustive "
+              "set; hash map as association list; map_while as list function), tied by sampled correspondence (400 + 100 + 50 quick / 20k + 5k + 2.5k random + 13k small-scope exhaustive "
               "id sequences thorough); harness, drivers, orchestrator. Hypotheses: messages and snapshot are genuine in the stated sense (the venue's contract; "
               "trichotomy and admitted_chain need none); futures no_false_alarm needs the delivery to contain the message covering the snapshot id (the published "
               "rule rejects a start at pu = s); distinct instrument keys per connection; that the terminal error leads to re-initialisation and a Reconnecting notice "
